@@ -29,7 +29,7 @@ REACH = {'sim.levelize': ('sim.py', 235, 262), 'sim.alloc': ('sim.py', 285, 315)
 
 def plan(tier, seed):
     q = tier == 'quick'
-    return [{'n': 22 if q else 350, 'k': 3 if q else 12} for _ in range(16)]
+    return [{'n': 90 if q else 1200, 'k': 3 if q else 12} for _ in range(16)]
 
 
 def conclude(agg):
